@@ -16,7 +16,8 @@ func init() {
 			"R12.2 the statement-separator check returns 'terminated' only on an explicit ';' (consumed), '}' or end of input at peek, the peek token following a line break, or tolerant mode — any other accepting path is a violation — and every parser of a node whose printer ends with the optional semicolon reaches that check on every path returning the node; " +
 			"R12.3 in the block parser every path to the return has seen '}' as current token, recorded an error, or is in tolerant mode; " +
 			"R12.4 the prefix dispatcher records an error on the no-entry path; " +
-			"R12.6 (information) expect results that are dropped. " +
+			"R12.6 (information) expect results that are dropped; " +
+			"R12.7 the infix method of '.' parses the property only behind a test of the token that follows the dot, and the refusal of that test records an error (a deleted property name is reported; what the test accepts is not decided). " +
 			"The corruption quantifier itself (all programs x deletions/fusions/truncations filtered by a reference JavaScript parser) and the position clause are not decided.",
 		notDecided: []string{"the corruption quantifier and the 'no longer valid JavaScript' filter", "the position of the first reported error", "open-class positions (an identifier in a parameter list) are consumed without a type test: listed as information under R12.1, see DESIGN.md"},
 	})
@@ -53,6 +54,9 @@ func runC12(c *Ctx) {
 		ruleTokenOrder(c, t, g, "checked")
 		ruleProgramReachesEOF(c, t, g)
 		ruleBlockReachesItsEnd(c, t, g)
+		c.rule("R12.7", "a dot access takes a name: the infix method of '.' parses the property only behind a test of the token that follows the dot, and the refusal of that test records an error (what the test accepts is not decided)")
+		c.floor(1)
+		ruleNameAfterDot(c, a, t)
 	}
 	if lexerRulesArmed {
 		c.rule("R12.5", "unterminated string/backtick literals are observable: the end-of-input exit and the closing-delimiter exit of the scanners are distinguishable downstream")
